@@ -23,14 +23,16 @@ import (
 	gx509 "github.com/tjfoc/gmsm/x509"
 
 	"verif/mc/harness"
+	"verif/mc/props/c06"
 	"verif/mc/props/c07"
 	"verif/mc/props/pu"
 	"verif/mc/props/sm2k"
+	"verif/mc/ref/gmref"
 )
 
 // target is one decoder with its corpus of valid encodings.
 type target struct {
-	hung bool // a call did not return: the goroutine is still spinning, no further inputs are tried on this target
+	hung   bool // a call did not return: the goroutine is still spinning, no further inputs are tried on this target
 	name   string
 	corpus [][]byte
 	call   func(in []byte)
@@ -551,7 +553,7 @@ func berUnit() harness.Unit {
 var Prop = &harness.Prop{
 	ID:          "C18",
 	Level:       "fault_enumeration",
-	Rule:        "for each of 26 decoder entry points (certificates, CSR, CRL DER/PEM, PKCS#7 signed/enveloped DER and BER-indefinite incl. decryption, PKCS#8 plain/encrypted, PKIX public key, PEM and hex keys, PKCS#12, SM2 ciphertext raw/ASN.1, signature, compressed point, SM4 PEM key) and for the TLS handshake-message parsers of both dialects (reached through real endpoints) a corpus of valid encodings produced by the library, and derived from each: every truncation, every byte x {00,01,7f,80,ff,b^1,b^0x80}, every TLV length (located by a DER walker that also enters OCTET/BIT STRINGs) rewritten to {0,len-1,len+1,0x80,0x84ffffffff}, 13 tag swaps per TLV; empty input, all one-byte inputs; all two-byte inputs and nesting depths 10..10000 for the BER reader. Oracle: the call returns (panic captured per call in worker processes), allocation (sampled every 64th call) below 64x input + 4 MiB, 20 s watchdog / 3 s re-run-5x slowness test; password-KDF iteration-count bytes are never mutated and password-based decoders are exempt from timing. distinct_nontrivial = distinct (decoder, mutated input). Added fault kind 'consistent re-encoding': every TLV resized (leading zero bytes, leading 0xff, trailing zero, first/last byte dropped, emptied, removed, doubled) with every enclosing length re-encoded; pkcs12.ParsePKCS8PrivateKey is a target of its own. Added decoder targets: x509.CertPool.AppendCertsFromPEM and gmtls.X509KeyPair (certificate bytes / key bytes) with a mixed PEM bundle in the corpus; a target is abandoned after its first hang.",
+	Rule:        "for each of 26 decoder entry points (certificates, CSR, CRL DER/PEM, PKCS#7 signed/enveloped DER and BER-indefinite incl. decryption, PKCS#8 plain/encrypted, PKIX public key, PEM and hex keys, PKCS#12, SM2 ciphertext raw/ASN.1, signature, compressed point, SM4 PEM key) and for the TLS handshake-message parsers of both dialects (reached through real endpoints) a corpus of valid encodings produced by the library, and derived from each: every truncation, every byte x {00,01,7f,80,ff,b^1,b^0x80}, every TLV length (located by a DER walker that also enters OCTET/BIT STRINGs) rewritten to {0,len-1,len+1,0x80,0x84ffffffff}, 13 tag swaps per TLV; empty input, all one-byte inputs; all two-byte inputs and nesting depths 10..10000 for the BER reader. Oracle: the call returns (panic captured per call in worker processes), allocation (sampled every 64th call) below 64x input + 4 MiB, 20 s watchdog / 3 s re-run-5x slowness test; password-KDF iteration-count bytes are never mutated and password-based decoders are exempt from timing. distinct_nontrivial = distinct (decoder, mutated input). Added fault kind 'consistent re-encoding': every TLV resized (leading zero bytes, leading 0xff, trailing zero, first/last byte dropped, emptied, removed, doubled) with every enclosing length re-encoded; pkcs12.ParsePKCS8PrivateKey is a target of its own. Added decoder targets: x509.CertPool.AppendCertsFromPEM and gmtls.X509KeyPair (certificate bytes / key bytes) with a mixed PEM bundle in the corpus; a target is abandoned after its first hang. The reference-peer interop units of C06 run here too: the peer's handshake messages one per record, in fragments of 1/7/100 bytes and a whole flight per record, for four suites and both roles.",
 	Assumptions: []string{"TLS handshake-message parsers are exercised through real endpoints (tls-messages units: every truncation and 7 substitutions per byte of every plaintext handshake message of GMSSL and TLS 1.2 sessions with mutual authentication, ALPN and tickets); session tickets byte by byte in the C16 check", "iteration counts carried by password-based formats are exempt as the statement says"},
 	Bounds: func(tier string) string {
 		if tier == "thorough" {
@@ -568,6 +570,13 @@ var Prop = &harness.Prop{
 		// the record layer as a decoder of untrusted bytes: short records for every cipher suite (shared with C07)
 		for sp := 0; sp < 4; sp++ {
 			u = append(u, c07.ShortRecordUnit(sp, 4))
+		}
+		// the handshake message decoders under every framing of the peer's messages into records: one
+		// per record, fragments of 1 / 7 / 100 bytes, a whole flight in one record (shared with C06)
+		for _, lc := range []bool{true, false} {
+			for _, suite := range []uint16{gmref.SuiteCBC, gmref.SuiteGCM, gmref.SuiteAESCBC, gmref.SuiteAESGCM} {
+				u = append(u, c06.RefInteropUnit(lc, suite))
+			}
 		}
 		for mi := range tlsModes() {
 			for k := 0; k < 7; k++ {
